@@ -264,10 +264,12 @@ class Scheduler:
             if self.s_preempt.chance(self.preempt_p):
                 self.preemptions += 1
                 if self.preempt_stall_p and self.s_preempt.chance(self.preempt_stall_p):
-                    # the pre-empted thread stays off the processor for a while: timers of the other threads come due meanwhile
-                    self.clock.inject(int(self.s_preempt.uniform(0.0, self.preempt_stall_max) * 1e9))
+                    # the pre-empted thread stays off the processor for a while (it is simply not runnable): the other threads run, their
+                    # timers come due, datagrams travel
                     self.result.fault("thread_descheduled")
-                self.yield_("preempt")
+                    self.park("descheduled", None, self.s_preempt.uniform(0.0, self.preempt_stall_max))
+                else:
+                    self.yield_("preempt")
         return self._local_trace
 
     # -- parking -----------------------------------------------------------------------------------------------------
